@@ -47,6 +47,8 @@ def check(chk, fx):
     caprules.cap_t(chk, fx)
     from .. import width
     width.check(chk, fx, classes=("LEN",), minimum=8)
+    from .. import cexrules
+    cexrules.buf(chk, fx)             # the three buffer classes: begin / end / get_view mean the same slice
     from .. import termrules
     termrules.termapi(chk, fx)
     termrules.defarg(chk, fx)
